@@ -29,7 +29,7 @@ def purpose(cid, purp=0):
 BUILD_FLAGS = {1: 'NEED_CAPACITY', 2: 'IS_INTERNAL,NEED_CAPACITY'}
 TARGET = {1: ('www.example.com', 80), 2: ('10.9.9.9', 443)}
 REMAP_IP = {1: '93.184.216.34', 2: '10.9.9.9'}
-REMAP_IP2 = {1: '93.184.216.35', 2: '10.9.9.10'}      # what a second REMAP (e.g. SOURCE=EXIT after a retry) reports
+REMAP_IP2 = {1: '2001:db8::35', 2: '10.9.9.10'}      # what a second REMAP (e.g. SOURCE=EXIT after a retry) reports
 MAX_REMAPS = {1: 2, 2: 1}
 
 
@@ -74,6 +74,8 @@ def tgt(sid, remapped=False):
     h, p = TARGET[sid]
     if remapped:
         h = remap_ip(sid, int(remapped))
+    if ':' in h:
+        h = '[%s]' % h          # Tor prints an IPv6 address in brackets
     return '%s:%d' % (h, p)
 
 
